@@ -98,6 +98,38 @@ type core struct {
 	rec  *recorder
 }
 
+// non-struct closers: the value carries the closer's id; behaviour and reporting are looked up in nstable
+var (
+	nsmu    sync.Mutex
+	nstable = map[int]*core{}
+)
+
+func nsrun(id int) error {
+	nsmu.Lock()
+	c := nstable[id]
+	nsmu.Unlock()
+	if c == nil {
+		return nil
+	}
+	return c.run()
+}
+
+type nsInt int
+
+func (n *nsInt) Naming() string { return fmt.Sprintf("closer%d", int(*n)) }
+func (n *nsInt) Close() error   { return nsrun(int(*n)) }
+
+type nsSlice []int
+
+func (n *nsSlice) Naming() string { return fmt.Sprintf("closer%d", (*n)[0]) }
+func (n *nsSlice) Close() error   { return nsrun((*n)[0]) }
+
+type nsChan chan int
+
+func (n *nsChan) id() int        { v := <-*n; *n <- v; return v }
+func (n *nsChan) Naming() string { return fmt.Sprintf("closer%d", n.id()) }
+func (n *nsChan) Close() error   { return nsrun(n.id()) }
+
 // closer: the ordinary shape.
 type closer struct{ core }
 
@@ -149,6 +181,9 @@ func build(c Case, rec *recorder) (comps []any, bad string) {
 		return "P"
 	}
 	zreset()
+	nsmu.Lock()
+	nstable = map[int]*core{}
+	nsmu.Unlock()
 	comps = make([]any, c.N)
 	for i := 0; i < c.N; i++ {
 		sh := shape(i)
@@ -166,6 +201,27 @@ func build(c Case, rec *recorder) (comps []any, bad string) {
 				return nil, "zero-size type used twice " + sh
 			}
 			comps[i] = zeroTypes[k].mk()
+		case strings.HasPrefix(sh, "N"):
+			// a closer whose type is not a struct: a named int, slice or channel with a pointer-receiver Close()
+			k, err := strconv.Atoi(sh[1:])
+			if err != nil || k < 0 || k > 2 {
+				return nil, "unknown non-struct closer " + sh
+			}
+			nsmu.Lock()
+			nstable[i+1] = &[]core{mk(i)}[0]
+			nsmu.Unlock()
+			switch k {
+			case 0:
+				v := nsInt(i + 1)
+				comps[i] = &v
+			case 1:
+				v := nsSlice{i + 1}
+				comps[i] = &v
+			default:
+				v := make(nsChan, 1)
+				v <- i + 1
+				comps[i] = &v
+			}
 		case strings.HasPrefix(sh, "O:"):
 			j, err := strconv.Atoi(sh[2:])
 			if err != nil || j < 0 || j >= c.N || shape(j) != "I" || comps[j] != nil {
